@@ -45,19 +45,20 @@ inductive Mode where
   | normal | commentLine | strLit | strEscaped | unquote | backtickString | freshAssignOrColon
   | firstFwdSlash | commentBlock | commentBlockAsterisk | builtinOperator | runeLit | runeEscaped
   | strHexEscape | runeHexEscape     -- repo fix C12-02: the digits of \xHH \uHHHH \UHHHHHHHH
+  | minusDot                         -- repo fix C12-05: after `-.` where a negative number may start
   deriving DecidableEq, Repr, Inhabited
 
 def modeNames : List String :=
   ["LexerNormal", "LexerCommentLine", "LexerStrLit", "LexerStrEscaped", "LexerUnquote",
    "LexerBacktickString", "LexerFreshAssignOrColon", "LexerFirstFwdSlash", "LexerCommentBlock",
    "LexerCommentBlockAsterisk", "LexerBuiltinOperator", "LexerRuneLit", "LexerRuneEscaped",
-   "LexerStrHexEscape", "LexerRuneHexEscape"]
+   "LexerStrHexEscape", "LexerRuneHexEscape", "LexerMinusDot"]
 
 def Mode.toNat : Mode → Nat
   | .normal => 0 | .commentLine => 1 | .strLit => 2 | .strEscaped => 3 | .unquote => 4
   | .backtickString => 5 | .freshAssignOrColon => 6 | .firstFwdSlash => 7 | .commentBlock => 8
   | .commentBlockAsterisk => 9 | .builtinOperator => 10 | .runeLit => 11 | .runeEscaped => 12
-  | .strHexEscape => 13 | .runeHexEscape => 14
+  | .strHexEscape => 13 | .runeHexEscape => 14 | .minusDot => 15
 
 structure Token where
   typ : TokType
@@ -437,10 +438,21 @@ def stepBuiltin (s0 : LexCore) (r : Char) : Outcome LexCore :=
   let atom := [s.prevrune, r]
   if s.prevrune == '-' && canStartSignedNumberAfter s.preBuiltinRune && (floatRe atom || decimalRe atom) then
     .ok { s with buffer := s.buffer ++ atom }
+  else if s.prevrune == '-' && canStartSignedNumberAfter s.preBuiltinRune && r == '.' then
+    .ok { s with state := .minusDot }     -- `-.5` is a number, `-.a` is not: the next rune decides (repo fix C12-05)
   else if builtinOpRe atom then
     let a := if atom == "&&".toList then "and".toList else if atom == "||".toList then "or".toList else atom
     .ok (appendToken s ⟨.symbol, a⟩)
   else stepNormal (appendToken s ⟨.symbol, [s.prevrune]⟩) r
+
+/-- `case LexerMinusDot` (repo fix C12-05): a digit continues the negative fraction `-.d`; anything
+else leaves the symbol `-`, and the dot starts the next atom. -/
+def stepMinusDot (s0 : LexCore) (r : Char) : Outcome LexCore :=
+  let s := { s0 with state := .normal }
+  if '0' ≤ r && r ≤ '9' then .ok { s with buffer := s.buffer ++ ['-', '.', r] }
+  else
+    let s1 := appendToken s ⟨.symbol, ['-']⟩
+    stepNormal { s1 with buffer := s1.buffer ++ ['.'] } r
 
 /-- `case LexerFirstFwdSlash` -/
 def stepFirstFwdSlash (s : LexCore) (r : Char) : Outcome LexCore :=
@@ -534,6 +546,7 @@ def stepMode (s : LexCore) (r : Char) : Outcome LexCore :=
     else .ok { appendToken s ⟨.tilde, []⟩ with buffer := s.buffer ++ [r], state := .normal }
   | .freshAssignOrColon => stepFresh s r
   | .builtinOperator => stepBuiltin s r
+  | .minusDot => stepMinusDot s r
   | .normal => stepNormal s r
 
 /-- `LexNextRune`. -/
